@@ -190,6 +190,8 @@ func runTamper(s *summary, k *h.Keys, root *h.Rng, n int, thorough bool, addCase
 			switch {
 			case strings.HasPrefix(m.What, "hdr launch"), strings.HasPrefix(m.What, "hdr id"):
 				always = append(always, m)
+			case strings.Contains(m.What, "copied into free slot") && strings.Contains(m.What, "with the same ID"):
+				always = append(always, m)
 			case strings.HasPrefix(m.What, "copy desc") && copies < 2 && r.Chance(1, 3):
 				always = append(always, m)
 				copies++
